@@ -206,26 +206,31 @@ impl Sim {
                 rc: cfg.rc,
             }),
         };
-        let mut b = StunClienteBuilder::new(rel).with_max_transactions(cfg.max_tx);
-        match &cfg.mech {
-            Mech::None => {}
-            Mech::ShortTerm(i) => {
-                b = b.with_mechanism(
-                    cfg.user.clone(),
-                    cfg.password.clone(),
-                    CredentialMechanism::ShortTerm(i.map(|s| {
-                        if s {
-                            Integrity::MessageIntegritySha256
-                        } else {
-                            Integrity::MessageIntegrity
-                        }
-                    })),
-                )
-            }
-            Mech::LongTerm => b = b.with_mechanism(cfg.user.clone(), cfg.password.clone(), CredentialMechanism::LongTerm),
-        }
-        if cfg.fingerprint {
-            b = b.with_fingerprint();
+        // the three optional builder calls are made in an order that depends on the configuration: what the client is
+        // must not depend on the order in which it was described
+        let mut b = StunClienteBuilder::new(rel);
+        const ORDERS: [[u8; 3]; 6] = [[0, 1, 2], [0, 2, 1], [1, 0, 2], [1, 2, 0], [2, 0, 1], [2, 1, 0]];
+        let order = ORDERS[(cfg.max_tx + cfg.rc as usize + cfg.rm as usize + cfg.user.len()) % 6];
+        for step in order {
+            b = match step {
+                0 => b.with_max_transactions(cfg.max_tx),
+                1 => match &cfg.mech {
+                    Mech::None => b,
+                    Mech::ShortTerm(i) => b.with_mechanism(
+                        cfg.user.clone(),
+                        cfg.password.clone(),
+                        CredentialMechanism::ShortTerm(i.map(|s| if s { Integrity::MessageIntegritySha256 } else { Integrity::MessageIntegrity })),
+                    ),
+                    Mech::LongTerm => b.with_mechanism(cfg.user.clone(), cfg.password.clone(), CredentialMechanism::LongTerm),
+                },
+                _ => {
+                    if cfg.fingerprint {
+                        b.with_fingerprint()
+                    } else {
+                        b
+                    }
+                }
+            };
         }
         let client = b.build().map_err(|e| format!("client build failed: {}", e))?;
         let _ = base();
